@@ -7,6 +7,7 @@
 mod eval;
 mod eval_io;
 mod gen;
+mod gen_io;
 mod gen_sm;
 mod proto;
 mod rng;
@@ -109,7 +110,9 @@ impl log::Log for FormattingLogger {
 static LOGGER: FormattingLogger = FormattingLogger;
 
 fn main() {
-    std::panic::set_hook(Box::new(|_| {}));
+    if std::env::var("FDX_VERBOSE").is_err() {
+        std::panic::set_hook(Box::new(|_| {}));
+    }
     let _ = log::set_logger(&LOGGER);
     log::set_max_level(log::LevelFilter::Trace);
 
